@@ -58,6 +58,9 @@ struct Plan {
     /// caller: pause (ms) between the read that reported the end of the body and the reads after it
     /// (long enough to cross the overall deadline: the response still completed before it)
     think_after_end_ms: Option<u64>,
+    /// where the time limits are configured: 0 = on the request, 1 = on the session the request is made
+    /// from, 2 = loose limits on the session, the real ones on the request (which must win)
+    limits_on: u8,
     drop_after_calls: Option<usize>,
     rereads: usize,
     scripts: Vec<Script>,
@@ -113,6 +116,11 @@ fn gen(g: &mut G, thorough: bool) -> Plan {
         upload: 0,
         think: Vec::new(),
         think_after_end_ms: None,
+        limits_on: match g.below(6) {
+            0 => 1,
+            1 => 2,
+            _ => 0,
+        },
         drop_after_calls: None,
         rereads: 0,
         scripts: Vec::new(),
@@ -265,10 +273,35 @@ fn caller(p: &Plan) -> Obs {
         }
         rb.send()
     } else {
-        let mut rb = attohttpc::get(&url).read_timeout(Duration::from_millis(p.r_ms)).max_redirections(10);
-        if let Some(t) = p.t_ms {
-            rb = rb.timeout(Duration::from_millis(t));
+        let mut session = attohttpc::Session::new();
+        let mut rb = match p.limits_on {
+            1 => {
+                session.read_timeout(Duration::from_millis(p.r_ms));
+                if let Some(t) = p.t_ms {
+                    session.timeout(Duration::from_millis(t));
+                }
+                session.get(&url)
+            }
+            2 => {
+                session.read_timeout(Duration::from_secs(48 * 3600));
+                if p.t_ms.is_some() {
+                    session.timeout(Duration::from_secs(48 * 3600));
+                }
+                let mut rb = session.get(&url).read_timeout(Duration::from_millis(p.r_ms));
+                if let Some(t) = p.t_ms {
+                    rb = rb.timeout(Duration::from_millis(t));
+                }
+                rb
+            }
+            _ => {
+                let mut rb = attohttpc::get(&url).read_timeout(Duration::from_millis(p.r_ms));
+                if let Some(t) = p.t_ms {
+                    rb = rb.timeout(Duration::from_millis(t));
+                }
+                rb
+            }
         }
+        .max_redirections(10);
         if p.route != Route::Plain {
             rb = rb.add_root_certificate(ca_cert());
         }
